@@ -21,6 +21,8 @@ def check(prog, rep, tier):
                       'send methods; on every path all writes go to the transport of the protocol the FSM tracks')
     rep.rule('R12.e', 'a late connectionLost of an earlier, already closed connection does not touch the tracked '
                       'connection: fsm.protocol / estab_protocol and the state are unchanged')
+    rep.rule('R12.g', 'an attempt is recorded: every path that starts a TCP connect leaves the state machine in '
+                      'Connect (or Active), so that no other start event dials beside it')
     rep.rule('R12.f', 'every path on which the agent abandons a live tracked connection (ends in Idle from a '
                       'non-Idle state) requests its close')
     rep.assumptions += ['schedule clauses (when the peer answers a pending connect) are not decided']
@@ -172,6 +174,29 @@ def check(prog, rep, tier):
                         path=r.describe())
     if not seen:
         rep.undecided('R12.f', 'leave', found='no rows')
+
+    # ---------------------------------------------------------------- R12.g
+    seen = {}
+    for (ev, state), rows in sorted(tab.rows.items()):
+        if ev == 'T_delay_open' and facts['dot_dead']:
+            continue
+        for r in rows:
+            if r.kind == 'raise' or not r.connects():
+                continue
+            name = 'attempt-recorded:%s@%s' % (ev if ev != 'WIRE' else 'WIRE:' + r.wire['cls'], state)
+            if r.final in ('Connect', 'Active'):
+                if name not in seen:
+                    seen[name] = 'ok'
+                    rep.ok('R12.g', name, file=common.row_file(r), line=common.row_line(r))
+            elif seen.get(name) != 'bad':
+                seen[name] = 'bad'
+                rep.bad('R12.g', name, file=common.row_file(r), line=common.row_line(r), func=common.row_func(r),
+                        found='a TCP connect is started but the state machine ends in %s: it does not know that an '
+                              'attempt is pending, so the next start event (idle-hold expiry, manual start) dials '
+                              'again beside it' % r.final, expected='state Connect while an attempt is pending',
+                        key=name, path=r.describe())
+    if not seen:
+        rep.undecided('R12.g', 'attempt-recorded', found='no row starts a connect')
 
     # ---------------------------------------------------------------- R12.d
     bgp = prog.cls(BGP_Q)
